@@ -490,10 +490,8 @@ func (p *Proxy) findBackendByDialog(msg *Message) (Backend, ServerTransport, err
 		return nil, nil, err
 	}
 
-	// no dialog for INVITE and SUBSCRIBE message because they initialize the dialog
-	if method == "INVITE" || method == "SUBSCRIBE" {
-		return nil, nil, fmt.Errorf("no dialog for request %s", method)
-	}
+	// a request that initializes a dialog (initial INVITE or SUBSCRIBE) has no To tag yet and
+	// therefore no dialog; a re-INVITE or a refresh SUBSCRIBE carries both tags and belongs to one
 	dialog, err := msg.GetDialog()
 
 	if err != nil {
